@@ -322,7 +322,8 @@ class Interp:
     binop_hook(interp, op, a, b, node) -> value or None : arithmetic havoc hook.
     """
     def __init__(self, num="int", bvw=32, max_unroll=64, intrinsics=None, binop_hook=None,
-                 solver=None, script=None):
+                 solver=None, script=None, int_truediv_fp=False):
+        self.int_truediv_fp = int_truediv_fp   # 'bv' domain: int / int yields an FP(11,53) term (IEEE, like CPython)
         self.num = num
         self.bvw = bvw
         self.max_unroll = max_unroll
@@ -337,6 +338,7 @@ class Interp:
         self.notes = []       # modelling notes (e.g. TypeError handler not reachable)
         self.cur = True       # current path condition (incl. "not yet returned")
         self.nstores = 0
+        self.float_ops = 0    # int / int and float(int) met in an exact (Int/Real) domain: IEEE behaviour not modelled there
         self.memo = {}
         self.solver_checks = 0
         self.solver_time = 0.0
@@ -393,6 +395,8 @@ class Interp:
 
     def coerce2(self, a, b):
         if is_sym(a) and not is_sym(b):
+            if z3.is_bv(a) and isinstance(b, float) and self.int_truediv_fp:
+                return self.int_to_fp(a), fp_val(b)
             if z3.is_bool(a) and not isinstance(b, bool):
                 a = self.bool_to_num(a)
             if z3.is_int(a) and ((isinstance(b, float) and not b.is_integer()) or
@@ -414,6 +418,10 @@ class Interp:
             a = self.bool_to_num(a, b)
         if z3.is_bool(b) and not z3.is_bool(a):
             b = self.bool_to_num(b, a)
+        if z3.is_fp(a) and z3.is_bv(b) and self.int_truediv_fp:
+            return a, self.int_to_fp(b)        # float (op) int: the int converts exactly (<= 53 bits)
+        if z3.is_bv(a) and z3.is_fp(b) and self.int_truediv_fp:
+            return self.int_to_fp(a), b
         if z3.is_bv(a) and z3.is_bv(b) and a.size() != b.size():
             n = max(a.size(), b.size())
             a = z3.SignExt(n - a.size(), a) if a.size() < n else a
@@ -426,6 +434,12 @@ class Interp:
         if a.sort() != b.sort():
             raise Unsupported("sorts %s / %s" % (a.sort(), b.sort()))
         return a, b
+
+    def int_to_fp(self, x):
+        """exact conversion of a (signed) bit-vector integer of at most 53 bits to a double"""
+        if x.size() > 53:
+            raise Unsupported("int -> float conversion of a %d-bit integer is not exact" % x.size())
+        return z3.fpSignedToFP(RNE, x, FP64)
 
     def bool_to_num(self, b, like=None):
         one, zero = (self.lift(1, like), self.lift(0, like)) if like is not None else (self.lift(1), self.lift(0))
@@ -657,9 +671,16 @@ class Interp:
 
     # ---- statements
 
+    def live(self, st, pc):
+        """condition under which the next statement executes: branch condition, not yet returned, and
+        (inside a loop) neither broken out of the loop nor continued past the rest of this iteration"""
+        c = self.land(pc, self.lnot(st["retc"]))
+        c = self.land(c, self.lnot(st.get("brk", False)))
+        return self.land(c, self.lnot(st.get("cont", False)))
+
     def block(self, stmts, st, pc):
         for s in stmts:
-            live = self.land(pc, self.lnot(st["retc"]))
+            live = self.live(st, pc)
             if live is False:
                 return
             self.cur = self.land(st["base"], live)
@@ -696,7 +717,7 @@ class Interp:
             return
         if isinstance(s, ast.Return):
             v = self.eval(s.value, env, g) if s.value is not None else None
-            live = self.land(pc, self.lnot(st["retc"]))
+            live = self.live(st, pc)
             if st["retc"] is False:
                 st["ret"] = v
             else:
@@ -714,31 +735,55 @@ class Interp:
             if s.orelse:
                 raise Unsupported("for-else")
             n = 0
-            for x in list(it):
-                live = self.land(pc, self.lnot(st["retc"]))
-                if live is False:
-                    break
-                n += 1
-                if n > 4096:
-                    raise Unsupported("for loop longer than 4096")
-                self.cur = self.land(st["base"], live)
-                self.assign_target(s.target, x, st)
-                self.block(s.body, st, pc)
+            outer = (st.get("brk", False), st.get("cont", False), st.get("inloop", False))
+            if outer[0] is not False or outer[1] is not False:
+                raise Unsupported("nested loop after a symbolic break/continue")
+            st["inloop"] = True
+            try:
+                for x in list(it):
+                    st["cont"] = False
+                    live = self.live(st, pc)
+                    if live is False:
+                        break
+                    n += 1
+                    if n > 4096:
+                        raise Unsupported("for loop longer than 4096")
+                    self.cur = self.land(st["base"], live)
+                    self.assign_target(s.target, x, st)
+                    self.block(s.body, st, pc)
+            finally:
+                st["brk"], st["cont"], st["inloop"] = outer
+            return
+        if isinstance(s, (ast.Break, ast.Continue)):
+            if not st.get("inloop"):
+                raise Unsupported("break/continue outside a translated loop")
+            k = "brk" if isinstance(s, ast.Break) else "cont"
+            st[k] = self.lor(st.get(k, False), self.live(st, pc))
             return
         if isinstance(s, ast.While):
             if s.orelse:
                 raise Unsupported("while-else")
-            for k in range(self.max_unroll + 1):
-                c = self.truth(self.eval(s.test, env, g))
-                if is_sym(c) and (pc is not True or st["retc"] is not False):
-                    raise _NeedFork("while under a symbolic condition")
-                if not self.decide(c):
-                    return
-                if k == self.max_unroll:
-                    raise Unsupported("unwind bound %d hit" % self.max_unroll)
-                self.block(s.body, st, pc)
-                if st["retc"] is True:
-                    return
+            outer = (st.get("brk", False), st.get("cont", False), st.get("inloop", False))
+            if outer[0] is not False or outer[1] is not False:
+                raise Unsupported("nested loop after a symbolic break/continue")
+            st["inloop"] = True
+            try:
+                for k in range(self.max_unroll + 1):
+                    st["cont"] = False
+                    c = self.truth(self.eval(s.test, env, g))
+                    if is_sym(c) and (pc is not True or st["retc"] is not False or st["base"] is not True):
+                        raise _NeedFork("while under a symbolic condition")
+                    if not self.decide(c):
+                        return
+                    if k == self.max_unroll:
+                        raise Unsupported("unwind bound %d hit" % self.max_unroll)
+                    self.block(s.body, st, pc)
+                    if is_sym(st["brk"]) or is_sym(st["cont"]):
+                        raise Unsupported("symbolic break/continue in a while loop")
+                    if st["retc"] is True or st["brk"] is True:
+                        return
+            finally:
+                st["brk"], st["cont"], st["inloop"] = outer
             return
         if isinstance(s, ast.Pass):
             return
@@ -746,7 +791,7 @@ class Interp:
             self.stmt_try(s, st, pc)
             return
         if isinstance(s, ast.Raise):
-            live = self.land(pc, self.lnot(st["retc"]))
+            live = self.live(st, pc)
             full = self.land(st["base"], live)
             if full is True:
                 exc = self.eval(s.exc, env, g) if s.exc is not None else RuntimeError("re-raise")
@@ -761,12 +806,13 @@ class Interp:
 
     def stmt_if_sym(self, s, c, st, pc):
         env = st["env"]
-        snap = (st["ret"], st["retc"], self.nstores, len(self.side), len(self.defs))
+        snap = (st["ret"], st["retc"], self.nstores, len(self.side), len(self.defs), st.get("brk", False), st.get("cont", False))
 
         def restore(e):
             if self.nstores != snap[2]:
                 raise Unsupported("branch abandoned after an attribute store (%s)" % (e,))
             st["ret"], st["retc"] = snap[0], snap[1]
+            st["brk"], st["cont"] = snap[5], snap[6]
             del self.side[snap[3]:]
 
         try:
@@ -778,7 +824,7 @@ class Interp:
                 self.block(s.orelse, st, pc)
                 return
             try:
-                sb = dict(st, env=dict(env), ret=sa["ret"], retc=sa["retc"])
+                sb = dict(st, env=dict(env), ret=sa["ret"], retc=sa["retc"], brk=sa.get("brk", False), cont=sa.get("cont", False))
                 self.block(s.orelse, sb, self.land(pc, z3.Not(c)))
             except _Dead:
                 restore("dead branch")
@@ -789,6 +835,7 @@ class Interp:
                 va, vb = sa["env"].get(name, POISON), sb["env"].get(name, POISON)
                 merged[name] = va if va is vb else self.ite(c, va, vb)
             st["ret"], st["retc"] = sb["ret"], sb["retc"]
+            st["brk"], st["cont"] = sb.get("brk", False), sb.get("cont", False)
             env.clear()
             env.update(merged)
         except _NeedFork as e:
@@ -823,6 +870,9 @@ class Interp:
     def assign_target(self, t, v, st):
         env = st["env"]
         if isinstance(t, ast.Name):
+            skip = self.lor(st.get("brk", False), st.get("cont", False))
+            if is_sym(skip):     # after a conditional break/continue the old value survives on the skipped paths
+                v = self.ite(z3.Not(skip), v, env.get(t.id, POISON))
             env[t.id] = v
             return
         if isinstance(t, (ast.Tuple, ast.List)):
@@ -977,6 +1027,10 @@ class Interp:
             if t is ast.Mult:
                 self.add_side("bit-vector width (*)", z3.And(z3.BVMulNoOverflow(a, b, True), z3.BVMulNoUnderflow(a, b)))
                 return a * b
+            if t is ast.Div and self.int_truediv_fp:
+                # python's int / int is the correctly rounded quotient: exactly fpDiv of the (exact) conversions
+                self.add_side("division by zero (ZeroDivisionError)", b != 0)
+                return z3.fpDiv(RNE, self.int_to_fp(a), self.int_to_fp(b))
             raise Unsupported("bit-vector operator " + t.__name__)
         if t is ast.Add:
             return a + b
@@ -990,6 +1044,8 @@ class Interp:
             q = self.floor_quot(a, b, "floor division")[0]
             return q if (z3.is_int(a) and z3.is_int(b)) else z3.ToReal(q)
         if t is ast.Div:
+            if z3.is_int(a) and z3.is_int(b):
+                self.float_ops += 1      # python computes an IEEE double here; the exact quotient is only a model
             a = z3.ToReal(a) if z3.is_int(a) else a
             b = z3.ToReal(b) if z3.is_int(b) else b
             self.add_side("division by zero", b != 0)
@@ -1425,7 +1481,10 @@ class Interp:
                 if z3.is_fp(v) or z3.is_real(v):
                     return v
                 if z3.is_int(v):
+                    self.float_ops += 1
                     return z3.ToReal(v)
+                if z3.is_bv(v) and self.int_truediv_fp:
+                    return self.int_to_fp(v)
             raise Unsupported("float() of a symbolic %s" % (v.sort() if is_sym(v) else type(v).__name__))
         if f is str:
             return self.str_of(args[0])
@@ -1611,7 +1670,8 @@ class Session:
     @staticmethod
     def make_solver(logic, timeout_ms):
         if logic and logic.startswith("tactic:"):
-            s = z3.Tactic(logic.split(":", 1)[1]).solver()
+            names = logic.split(":", 1)[1].split(">")      # "tactic:simplify>fpa2bv>qfbv" = Then(...)
+            s = (z3.Then(*names) if len(names) > 1 else z3.Tactic(names[0])).solver()
         else:
             s = z3.SolverFor(logic) if logic else z3.Solver()
         s.set("timeout", int(timeout_ms))
@@ -1744,7 +1804,7 @@ class Session:
 
     # -- the proof step
     def prove(self, key, claim, assume=(), defs=(), side=(), wrong=None, vals=None, detail="",
-              concretize=None, what=""):
+              concretize=None, what="", on_unknown=None):
         """Try to prove `claim` under assume+defs.  vals(model) -> dict of replayable inputs.
         concretize(model) -> (vals, detail) or None turns an abstract candidate into concrete
         replayable inputs (None: candidate not reproducible -> inconclusive)."""
@@ -1794,6 +1854,16 @@ class Session:
                 self.fail(key, v, (detail(m, v) if callable(detail) else detail) or what)
             return "sat"
         if r != "unsat":
+            # stated fallback of the harness (e.g. exhaustive concrete evaluation of a bounded box)
+            got = on_unknown() if on_unknown is not None else None
+            if got is not None and got[0] == "sat":
+                self.fail(key, got[1], got[2])
+                return "sat"
+            if got is not None and got[0] == "unsat":
+                self.note(got[1])
+                self.res["extra"]["decided_by_fallback"] = self.res["extra"].get("decided_by_fallback", 0) + 1
+                self.res["confirmed"] += 1
+                return "unsat"
             self.inconclusive("solver unknown (%s) for %s %s" % (why, key, what))
             return "unknown"
         if not self.xcheck(prem + [z3.Not(claim)], "%s %s" % (key, what)):
